@@ -446,7 +446,19 @@ impl RuntypeUUID {
                     let type_with_args_count = ctx.type_with_args_names.len();
                     let final_suffix =
                         Self::type_with_args_str(type_with_args_count, &self.type_arguments, ctx);
-                    let final_name = format!("{}{}", base, final_suffix);
+                    let mut final_name = format!("{}{}", base, final_suffix);
+                    // `G<string>` must not take the name of a declared `type G_string`
+                    let declared = ctx
+                        .all_names
+                        .iter()
+                        .filter(|it| it.type_arguments.is_empty())
+                        .map(|it| it.ty.print_name_for_js_codegen(ctx.all_names))
+                        .collect::<Vec<_>>();
+                    let mut n = type_with_args_count;
+                    while declared.contains(&final_name) {
+                        final_name = format!("{}_instance_{}", base, n);
+                        n += 1;
+                    }
                     for (uuid, name) in ctx.type_with_args_names.iter() {
                         let has_same_name = name == &final_name;
                         if has_same_name {
